@@ -19,7 +19,8 @@ RULE = ("A generated problem (data, default-type prior, library of 8-40 prior sa
         "batches of one call (identical library rows in different batches have identical (a, A), so a repeated child "
         "stream would repeat the draw) or between successive identical calls. A second search runs one seeded prior.sample + "
         "by-count rejection_sample in three fresh interpreters with different PYTHONHASHSEED and compares digests. "
-        "Non-trivial: a history of >=2 calls, or >=2 batches, or the by-count path.")
+        "Non-trivial: a history of >=2 calls, or >=2 batches, or the by-count path."
+        ' Also: the deprecated random_state= keyword in the second run; a user tempfile_path; a sampler created without rng must leave the global generators alone; the initial states of all generators handed to tasks are collected and any two whose first 6000 raw outputs overlap (shifted copies) are reported.')
 SHARDS = {"quick": 4, "thorough": 16}
 BUDGET = {"quick": 80, "thorough": 800}
 
